@@ -30,7 +30,7 @@ fn go15(op: &str, args: &[Arg]) -> Option<String> {
             let a = Array::new(e1.iter().map(|&x| x as f64 / *sc as f64).collect(), s1.clone()).ok()?;
             rf(&a.solve(&mkf(s2, e2)?))
         }
-        ("det", [Arg::A(s1, e1)]) => rf(&mkf(s1, e1)?.det()),
+        ("det", [Arg::A(s1, e1)]) | ("detstack", [Arg::A(s1, e1)]) => rf(&mkf(s1, e1)?.det()),
         ("qr", [Arg::A(s1, e1)]) => match mkf(s1, e1)?.qr() {
             Ok(v) => format!("list({})", v.iter().map(|(q, r)| format!("{};{}", fbits(q), fbits(r))).collect::<Vec<_>>().join(";")),
             Err(e) => err_str(&e) },
@@ -49,7 +49,7 @@ fn go15(op: &str, args: &[Arg]) -> Option<String> {
 }
 
 pub fn dispatch(op: &str, ty: &str, args: &[Arg]) -> Option<String> {
-    if let "solve" | "det" | "qr" | "norm" = op { return Some(go15(op, args).unwrap_or_else(|| "bad:input".to_string())); }
+    if let "solve" | "det" | "detstack" | "qr" | "norm" = op { return Some(go15(op, args).unwrap_or_else(|| "bad:input".to_string())); }
     match op { "vdot" | "inner" | "outer" | "matmul" | "matmul_pinned" | "dot" | "dot_pinned"
                | "sym_vdot" | "sym_inner" | "sym_outer" | "sym_matmul" | "sym_dot" => {} _ => return None }
     let r = match ty { "i32" => go::<i32>(op, args), "i64" => go::<i64>(op, args), "f64" | "f64p" => go::<f64>(op, args),
